@@ -16,6 +16,8 @@ pub struct C03;
 pub enum Malform {
     Empty,
     AdjacentEqual(u8),
+    /// the same key twice in a row, the second entry with a larger (true) or smaller (false) weight
+    AdjacentEqualOtherWeight(u8, bool),
     Descending(u8),
     FirstKeyZero,
     ZeroWeight(u8),
@@ -49,6 +51,9 @@ pub struct Attempt {
     pub prover: Prover,
     pub bypass: bool,
     pub operator_auth: bool,
+    /// days that pass before this attempt (epochs and lookups must not decay with time)
+    #[serde(default)]
+    pub days_before: u8,
 }
 
 #[derive(Clone, Debug, Serialize, Deserialize)]
@@ -61,6 +66,7 @@ fn malform() -> impl Strategy<Value = Malform> {
     prop_oneof![
         Just(Malform::Empty),
         (0u8..8).prop_map(Malform::AdjacentEqual),
+        (0u8..8, any::<bool>()).prop_map(|(k, up)| Malform::AdjacentEqualOtherWeight(k, up)),
         (0u8..8).prop_map(Malform::Descending),
         Just(Malform::FirstKeyZero),
         (0u8..8).prop_map(Malform::ZeroWeight),
@@ -89,8 +95,8 @@ fn prover() -> impl Strategy<Value = Prover> {
 }
 
 fn attempt() -> impl Strategy<Value = Attempt> {
-    (cand(), prover(), prop_oneof![3 => Just(false), 2 => Just(true)], prop_oneof![3 => Just(true), 1 => Just(false)])
-        .prop_map(|(cand, prover, bypass, operator_auth)| Attempt { cand, prover, bypass, operator_auth })
+    (cand(), prover(), prop_oneof![3 => Just(false), 2 => Just(true)], prop_oneof![3 => Just(true), 1 => Just(false)], prop_oneof![5 => Just(0u8), 1 => 1u8..25])
+        .prop_map(|(cand, prover, bypass, operator_auth, days_before)| Attempt { cand, prover, bypass, operator_auth, days_before })
 }
 
 /// Apply a malformation to a well-formed set (keys stay real keys except where stated).
@@ -121,6 +127,30 @@ pub fn apply(g: &SetGen, m: Malform, nonce: u8) -> BuiltSet {
             b.weights.insert(i, b.weights[i]);
             let sk = b.sks[i].clone();
             b.sks.insert(i, sk);
+        }
+        Malform::AdjacentEqualOtherWeight(k, up) => {
+            let i = k as usize % n;
+            b.pks.insert(i + 1, b.pks[i]);
+            let w = b.weights[i];
+            if up {
+                b.weights.insert(i + 1, w.checked_add(1).unwrap_or(w));
+                if w == u128::MAX {
+                    b.weights[i] = w - 1;
+                }
+            } else {
+                b.weights[i] = w.checked_add(1).unwrap_or(w);
+                b.weights.insert(i + 1, if w == u128::MAX { w - 1 } else { w });
+            }
+            let sk = b.sks[i].clone();
+            b.sks.insert(i + 1, sk);
+            // keep the only malformation the repeated key
+            if b.total_weight().is_none() {
+                for x in b.weights.iter_mut() {
+                    *x = (*x).min(1000);
+                }
+            }
+            let total = b.total_weight().unwrap();
+            b.threshold = b.threshold.clamp(1, total);
         }
         Malform::Descending(k) => {
             let i = k as usize % (n - 1);
@@ -218,7 +248,7 @@ impl Property for C03 {
         "C03"
     }
     fn rule(&self) -> &'static str {
-        "proptest: (a) gateway with retention 0-3 or u64::MAX(-1) and 1-3 initial sets, history of <=8 (quick) / <=14 (thorough) rotation attempts, each = candidate (fresh well-formed set with boundary weights/thresholds; or one malformation: empty, adjacent equal keys, descending pair, all-zero first key, zero weight, weights summing past u128, threshold 0 / total+1; or a repeat of an installed set; or an installed set's signers under a new nonce, which is a different set) x proving set (latest, any installed, never installed, latest signing a different candidate) x bypass x operator authorisation; (b) constructor cases with 0-4 such candidates. Oracle: well-formedness predicate from the statement, reference epoch/lookup model with independent set hashes, inverse-lookup invariant over every epoch and every hash ever attempted after each step, ledger-snapshot equality after every failure. non-trivial = a malformed or repeated candidate, or a non-latest proving set, occurs"
+        "proptest: (a) gateway with retention 0-3 or u64::MAX(-1) and 1-3 initial sets, history of <=8 (quick) / <=14 (thorough) rotation attempts, each = candidate (fresh well-formed set with boundary weights/thresholds; or one malformation: empty, adjacent equal keys (same, larger or smaller weight on the repeat), descending pair, all-zero first key, zero weight, weights summing past u128, threshold 0 / total+1; or a repeat of an installed set; or an installed set's signers under a new nonce, which is a different set) x proving set (latest, any installed, never installed, latest signing a different candidate) x bypass x operator authorisation; (b) constructor cases with 0-4 such candidates. Oracle: well-formedness predicate from the statement, reference epoch/lookup model with independent set hashes, inverse-lookup invariant over every epoch and every hash ever attempted after each step, ledger-snapshot equality after every failure. non-trivial = a malformed or repeated candidate, or a non-latest proving set, occurs"
     }
     fn assumptions(&self) -> Vec<&'static str> {
         vec!["a well-formed set whose first key is all-zero is not decided by the statement (Either)"]
@@ -242,6 +272,8 @@ impl Property for C03 {
             Malform::Empty,
             Malform::AdjacentEqual(0),
             Malform::AdjacentEqual(1),
+            Malform::AdjacentEqualOtherWeight(0, true),
+            Malform::AdjacentEqualOtherWeight(1, false),
             Malform::Descending(0),
             Malform::FirstKeyZero,
             Malform::ZeroWeight(1),
@@ -253,9 +285,9 @@ impl Property for C03 {
                 retention: 1,
                 initial: vec![g(vec![1, 2])],
                 attempts: vec![
-                    Attempt { cand: Cand::Malformed(g(vec![3, 4, 5]), m), prover: Prover::Latest, bypass: false, operator_auth: true },
-                    Attempt { cand: Cand::Fresh(g(vec![3, 4, 5])), prover: Prover::Latest, bypass: false, operator_auth: true },
-                    Attempt { cand: Cand::Repeat(0), prover: Prover::Latest, bypass: false, operator_auth: true },
+                    Attempt { cand: Cand::Malformed(g(vec![3, 4, 5]), m), prover: Prover::Latest, bypass: false, operator_auth: true, days_before: 0 },
+                    Attempt { cand: Cand::Fresh(g(vec![3, 4, 5])), prover: Prover::Latest, bypass: false, operator_auth: true, days_before: 20 },
+                    Attempt { cand: Cand::Repeat(0), prover: Prover::Latest, bypass: false, operator_auth: true, days_before: 0 },
                 ],
             });
             v.push(Case::Ctor { sets: vec![Cand::Fresh(g(vec![1, 2])), Cand::Malformed(g(vec![3, 4]), m)] });
@@ -331,6 +363,9 @@ impl Property for C03 {
                 }
                 let mut nontrivial = false;
                 for (step, a) in attempts.iter().enumerate() {
+                    if a.days_before > 0 {
+                        advance_ledgers(&env, a.days_before as u32 * 17280);
+                    }
                     let nonce = (initial.len() + step) as u8;
                     let cand = resolve(&a.cand, &installed, nonce, cx);
                     let cand_hash = cand.hash();
